@@ -125,7 +125,7 @@ _rev('C14',
      text='The per-cycle statistic is proved to be the supplied (arbitrary) function applied to exactly the samples carrying each label; the projection to be constant within cycles and NaN elsewhere; every phase bin with samples to hold their mean and empty bins to be missing; every phase-aligned column to be the extrapolating interpolant of exactly that cycle\'s samples evaluated on the phase grid, which is exact for quantities linear in phase - for all lengths and labellings. The interpolation-error clause, weighted / multi-column binning and the get_cycle_stat wrapper are bounded.',
      note=PROOF_NOTE + 'scipy interp1d and the cycle iterator are contract stubs; mean / sum with IEEE NaN semantics in the bin_by_phase unit.')
 _rev('C16',
-     text='Each index map / projection is verified against its set-theoretic contract for all vector lengths and all indices (loops by invariants; composite maps and projections call their callees through the contracts discharged in the callees\' own units); the round-trip statements are lemmas over those contracts. map_chain_to_samples (np.hstack of a symbolic number of variable-length pieces, by an assumed contract) is proved to list exactly the samples of the chain, each once; the order of that list is bounded.')
+     text='Each index map / projection is verified against its set-theoretic contract for all vector lengths and all indices (loops by invariants; composite maps and projections call their callees through the contracts discharged in the callees\' own units); the round-trip statements are lemmas over those contracts. map_chain_to_samples (np.hstack of a symbolic number of variable-length pieces, by an assumed contract) is proved to list exactly the samples of the chain, each once, cycle by cycle in subset order; that this list is globally ascending is bounded.')
 _rev('C19',
      technique=CLAIMED['C19']['technique'].replace('spectra / cycle-detection / second-layer routines', 'sift, get_next_imf, mask / ensemble sifts, envelope / extrema routines, frequency_transform, amplitude_normalise, phase_align, bin_by_phase, spectra, cycle-detection (wrapped and unwrapped phase) and second-layer routines (harnesses of their own properties with read-only arguments)'),
      text='The input validators are proved to accept exactly the documented single-signal layouts (returning the same elements) and to raise for every other extent combination (ensure_equal_dims for two and three arrays); writes into argument buffers / option dicts - item, slice and augmented assignments - are proved absent for the routines listed in the evidence. Layout-equivalence of complete numerical results and determinism are bounded.')
